@@ -382,8 +382,11 @@ class Check:
 
     def finish(self):
         wall = time.time() - self.t0
-        os.makedirs(os.path.join(VERIF, "evidence"), exist_ok=True)
-        rdir = os.path.join(OUT, "replay", self.prop)
+        # a run against a scratch copy with a seeded change (VERIF_REPO) never touches the committed evidence or the
+        # replay files of the real checks
+        evdir = os.path.join(OUT, "evidence-alt") if _ALT else os.path.join(VERIF, "evidence")
+        os.makedirs(evdir, exist_ok=True)
+        rdir = os.path.join(OUT, "replay-alt.%d" % os.getpid() if _ALT else "replay", self.prop)
         os.makedirs(rdir, exist_ok=True)
         lines = []
         for k, (e, n, rd) in sorted(self.known_hits.items()):
@@ -432,7 +435,7 @@ class Check:
         }
         if self.notes:
             ev["notes"] = self.notes
-        with open(os.path.join(VERIF, "evidence", self.prop + ".json"), "w") as f:
+        with open(os.path.join(evdir, self.prop + ".json"), "w") as f:
             json.dump(ev, f, indent=1, ensure_ascii=False)
         for l in lines:
             print(l)
